@@ -61,7 +61,7 @@ CLAIMED.update({
         note="docopt, glob, file I/O and the library calls themselves are exercised only. Mirrored rather than flagged: the `-db.json` fallback is dead code (second candidate is `D_db.json-db.json`), `collect -o x.txt` writes nothing, `tag -f xyz` gives TSV.",
         technique="Lean 4 proofs of decision rules + differential correspondence through the real CLI entry points",
         ref="DESIGN.md §5 C18"),
-    "C11_PENDING": dict(
+    "C11": dict(
         text="Proof (partial): label_programs' relabelling of internal imports and make_db (direct importations, the iterative visited-set closure with a PROVED termination measure, exportations, inverted indexes, sorted spans, record assembly, SQLite rows) are modelled; theorems for every collection, taxonomy oracle and import graph: C11_importations (importations[p] = the unique strictly sorted list of {q | TransGen Imports p q}, cycles and self-imports included), C11_exportations (exact inverse), C11_indexes, C11_spans_sorted, C11_records, C11_sqlite_rows, C11_total (a database is always returned), makeDb_wf and makeDb_filter_wf (the database satisfies the well-formedness the filter theorems C04-C07 assume). Models mirror fixes ca3b9c8 1a46ae2 77a08ea 0c1b93c.",
         note="Exercised only: the json.dumps + compaction + json.loads round trip and the sqlite3 round trip (the harness compares json.loads(get_json()) and the rows read back with the model's value on generated directories); parser and taxonomy outputs are inputs (recorded from the real run).",
         technique="Lean 4 proofs (induction, well-founded recursion for the closure, TransGen characterisation) + differential correspondence on generated directories and helper functions",
